@@ -31,7 +31,9 @@ RULE = {
            "probes and taps released, no pump left); non-trivial = data flowed and (output replaced after data, release in mid-history or sub-pipe churn)",
     "C04": GEN + "; oracle: per pipe incarnation the first non-log event is READY, DEAD exactly once and last (sub-pipes and inner pipes included); in the tap, at the moment of delivery: "
            "no buffer or definition from a pipe that has thrown DEAD, every buffer preceded since the tap was connected by a definition the sink accepted, none while the last answer was a rejection, "
-           "and the accepted definition equal (udict_cmp) to the pipe's current upipe_get_flow_def; set_output must succeed; non-trivial = data delivered and (output or definition changed after data, or a rejection)",
+           "and the accepted definition equal (udict_cmp) to the pipe's current upipe_get_flow_def; a whole picture leaving crop, separate_fields, videocont, subpic_schedule, blit, sync, graph or ntsc_prepend has the size the accepted definition announces (a picture of another size belongs to a flow whose definition never arrived); "
+           "the inputs of the date-matching pipes (videocont, audiocont) are dated like the coming buffers of the reference flow, and in half of their cases the first input is defined and selected up front; the fake clock starts one hour after its epoch; "
+           "named exclusion flowdef-change-out-of-band (open finding): the picture size of a sync or blit pipe is not changed while it holds pictures; set_output must succeed; non-trivial = data delivered and (output or definition changed after data, or a rejection)",
     "C05": GEN + "; oracle: every uref of the case comes from a tracking manager, so after every operation each sequence-numbered buffer is observed as delivered (sink record), still allocated "
            "(held by a pipe) or freed; no buffer reaches the same output twice and none is both delivered and still held unless a pipe of the case is documented to duplicate / import attributes; "
            "pipes documented one-to-one and synchronous (noclock, nodemux, multicat_probe, dejitter, dump, rtp_mpeg4, rtp_prepend, ntsc_prepend, block_to_sound, play/dejitter sub-pipes) must have delivered "
